@@ -129,6 +129,42 @@ def insertSorted (rk : Val → Int) (v : Val) : List Val → List Val
 def vSort (desc : Bool) (key : Option Fn) (xs : List Val) : List Val :=
   xs.foldr (insertSorted (rank desc key)) []
 
+/-- fresh-result functions of ONE list argument (value level) -/
+inductive Fn1 where
+  | copy          -- copy-seq, copy-tree on a flat list, (apply #'list x), (multiple-value-list (values-list x)),
+                  -- (mapcar #'identity x), (map 'list #'identity x), (maplist #'car x), (coerce (coerce x 'vector) 'list)
+  | dedup         -- (union x nil): the elements of x without repetitions (first occurrence kept)
+  deriving DecidableEq, Repr
+
+def Fn1.app : Fn1 → List Val → List Val
+  | .copy, xs => xs
+  | .dedup, xs => xs.eraseDups
+
+/-- the elements of two lists taken alternately, as far as both lists reach -/
+def interleave : List Val → List Val → List Val
+  | x :: xs, y :: ys => x :: y :: interleave xs ys
+  | _, _ => []
+
+/-- fresh-result functions of TWO list arguments (value level) -/
+inductive Fn2 where
+  | interleave    -- (mapcan (lambda (&rest p) p) x y), (mapcan #'list x y): x0 y0 x1 y1 …
+  | firstPair     -- the &rest list a two-list map hands to its function at the first step: (x0 y0)
+  | lastPair      -- … at the last step
+  | takeMin       -- (mapcar (lambda (&rest p) (car p)) x y): the first min(|x|,|y|) elements of x
+  | union         -- (union x y) as slip orders it: x then y, first occurrences only
+  deriving DecidableEq, Repr
+
+def Fn2.app : Fn2 → List Val → List Val → List Val
+  | .interleave, xs, ys => SlipVerif.ListHeap.interleave xs ys
+  | .firstPair, x :: _, y :: _ => [x, y]
+  | .firstPair, _, _ => []
+  | .lastPair, xs, ys =>
+      match (xs.take (min xs.length ys.length)).getLast?, (ys.take (min xs.length ys.length)).getLast? with
+      | some x, some y => [x, y]
+      | _, _ => []
+  | .takeMin, xs, ys => xs.take (min xs.length ys.length)
+  | .union, xs, ys => (xs ++ ys).eraseDups
+
 def vSetNth (n : Nat) (v : Val) (xs : List Val) : Except Err (List Val) :=
   if n < xs.length then .ok (xs.set n v) else .error .range
 def vRplaca (v : Val) : List Val → Except Err (List Val)
@@ -228,6 +264,9 @@ inductive Op where
   | mapcar (f : Fn) (x : Ref)
   | mapcar2 (x y : Ref)                  -- (mapcar '+ x y)
   | concat (x y : Ref)                   -- (concatenate 'list x y): a fresh list, shares with neither
+  | fresh1 (f : Fn1) (x : Ref)           -- copy-seq copy-tree (apply #'list x) (multiple-value-list (values-list x)) …
+  | fresh2 (f : Fn2) (x y : Ref)         -- lists built from argument lists by the mapping functions, union
+  | revappend (x y : Ref)                -- (revappend x y): fresh reversed copy of x in front of y (shares y)
   | rplaca (x : Ref) (v : Val)           -- also (setf (car x) v)
   | setNth (n : Nat) (x : Ref) (v : Val) -- (setf (nth n x) v), (setf (elt x n) v)
   | rplacd (x y : Ref)
@@ -245,7 +284,7 @@ def Op.destructive : Op → Bool
 
 /-- operations that only extend a list (never overwrite an element) -/
 def Op.extending : Op → Bool
-  | .cons .. | .listStar .. | .append .. | .add .. | .nconc .. => true
+  | .cons .. | .listStar .. | .append .. | .add .. | .nconc .. | .revappend .. => true
   | _ => false
 
 /-- the list arguments of an operation -/
@@ -253,8 +292,8 @@ def Op.listArgs : Op → List Ref
   | .lit _ => []
   | .alias x | .cons _ x | .listStar _ _ x | .nthcdr _ x | .last _ x | .member _ _ x | .butlast _ x
   | .subseq _ _ x | .copyList x | .reverse x | .remove _ x | .mapcar _ x | .rplaca x _ | .setNth _ x _
-  | .add x _ | .nreverse x | .sort _ _ x | .delete _ x => [x]
-  | .append x y | .rplacd x y | .nconc x y | .mapcar2 x y | .concat x y => [x, y]
+  | .add x _ | .nreverse x | .sort _ _ x | .delete _ x | .fresh1 _ x => [x]
+  | .append x y | .rplacd x y | .nconc x y | .mapcar2 x y | .concat x y | .fresh2 _ x y | .revappend x y => [x, y]
 
 /-- `remove` on the cells `as` of the argument, `m` marking the positions to take out: as soon as
     nothing further is to be removed the remaining cells are shared (the language allows the result
@@ -317,6 +356,17 @@ def run (h : Heap) : Op → Except Err (Heap × Ref)
       let as ← chainOf h x
       let bs ← chainOf h y
       .ok (allocList h (carsOf h as ++ carsOf h bs) .nil)
+  | .fresh1 f x => do
+      let as ← chainOf h x
+      .ok (allocList h (f.app (carsOf h as)) .nil)
+  | .fresh2 f x y => do
+      let as ← chainOf h x
+      let bs ← chainOf h y
+      .ok (allocList h (f.app (carsOf h as) (carsOf h bs)) .nil)
+  | .revappend x y => do
+      let as ← chainOf h x
+      let _ ← chainOf h y
+      .ok (allocList h (carsOf h as).reverse y)
   | .rplaca x v => do
       let as ← chainOf h x
       match as with
@@ -395,6 +445,9 @@ def valueOf (op : Op) (xs ys : List Val) : Except Err (List Val) :=
   | .mapcar f _ => .ok (vMapcar f xs)
   | .mapcar2 .. => .ok (vMapcar2 xs ys)
   | .concat .. => .ok (xs ++ ys)
+  | .fresh1 f _ => .ok (f.app xs)
+  | .fresh2 f .. => .ok (f.app xs ys)
+  | .revappend .. => .ok (xs.reverse ++ ys)
   | .rplaca _ v => vRplaca v xs
   | .setNth n _ v => vSetNth n v xs
   | .rplacd .. => vRplacd ys xs
